@@ -75,7 +75,7 @@ func vfH_C13_close() {
 }
 
 
-//vf:assume C13-bytes: a tracked connection over an inner connection that, like *net.TCPConn, also implements io.ReaderFrom; each of 1..3 transfers is a Read, Write or ReadFrom that moves 0..3 bytes and then succeeds or fails (a failing transfer may have moved bytes first)
+//vf:assume C13-bytes: a tracked connection over an inner connection that, like *net.TCPConn, also implements io.ReaderFrom; each of 1..3 (quick) / 1..4 (thorough) transfers is a Read, Write or ReadFrom that moves 0..3 bytes and then succeeds or fails (a failing transfer may have moved bytes first)
 
 type vfInnerRF struct {
 	vfInner
@@ -115,7 +115,11 @@ func vfH_C13_bytes() {
 	if obs == nil {
 		return
 	}
-	steps := 1 + vfrt.Choice("transfers", 3)
+	maxSteps := 3
+	if vfrt.Thorough() {
+		maxSteps = 4
+	}
+	steps := 1 + vfrt.Choice("transfers", maxSteps)
 	wantRx, wantTx := 0, 0
 	anyFail := false
 	for i := 0; i < steps; i++ {
